@@ -74,6 +74,26 @@ class ClassInfo:
     attrs: dict = field(default_factory=dict)  # class-level assignments name -> stmt
 
 
+def _normalise_idioms(tree, path):
+    """Front-end normalisation of standard-library spellings that are *defined* as another call:
+         q.put_nowait(x)  is  q.put(x, block=False)      (queue.Queue.put_nowait is `return self.put(item, block=False)`)
+         q.get_nowait()   is  q.get(block=False)
+    so that every rule sees one spelling.  Refused (analysis error) if the repository defines a method of that name itself."""
+    for n in ast.walk(tree):
+        if isinstance(n, (ast.FunctionDef, ast.AsyncFunctionDef)) and n.name in ("put_nowait", "get_nowait"):
+            raise AnalysisError(f"{path}:{n.lineno}: the repository defines `{n.name}`; the put_nowait/get_nowait normalisation no longer applies")
+        if (isinstance(n, ast.Call) and isinstance(n.func, ast.Attribute) and n.func.attr in ("put_nowait", "get_nowait")
+                and not n.keywords and not any(isinstance(a, ast.Starred) for a in n.args)
+                and len(n.args) == (1 if n.func.attr == "put_nowait" else 0)):
+            n.func.attr = n.func.attr[:3]
+            kw = ast.keyword("block", ast.Constant(False))
+            ast.copy_location(kw, n)
+            ast.copy_location(kw.value, n)
+            kw.end_lineno = kw.value.end_lineno = getattr(n, "end_lineno", n.lineno)
+            kw.end_col_offset = kw.value.end_col_offset = getattr(n, "end_col_offset", n.col_offset)
+            n.keywords = [kw]
+
+
 class Model:
     def __init__(self, repo: str | None = None, stdlib: bool = True):
         self.repo = repo or repo_root()
@@ -95,6 +115,8 @@ class Model:
             tree = ast.parse(src, path)
         except SyntaxError as e:  # a tree that does not compile is not analysable
             raise AnalysisError(f"cannot parse {path}: {e}")
+        if name.split(".")[0] == PKG:
+            _normalise_idioms(tree, path)
         for n in ast.walk(tree):
             for c in ast.iter_child_nodes(n):
                 c._parent = n
